@@ -134,7 +134,7 @@ def run_shard(ctx):
     def test(case):
         runner.guarded(ctx, check_case, case)
 
-    runner.drive(ctx, test, ctx.n(9000, 80000))
+    runner.drive(ctx, test, ctx.n(7000, 80000))
 
 
 def replay(ctx, case):
